@@ -578,6 +578,8 @@ class MinFlowDecomp(pathmodel.AbstractPathModelDAG): # Note that we inherit from
             return self._lowerbound_k
         
         stG = stdag.stDAG(self.G)
+        # (missing, negative or non-finite flow values are reported here, as ValueError, before the lower bounds look at them)
+        stG.get_max_flow_value_and_check_non_negative_flow(flow_attr=self.flow_attr, edges_to_ignore=set(self.edges_to_ignore) | set(stG.source_sink_edges))
 
         self._lowerbound_k = self.optimization_options.get("lowerbound_k", 1)
 
